@@ -257,6 +257,13 @@ def load_tables():
     return codes, exc, echo
 
 
+CORPUS = [
+    ("22f190", "7f22aa"), ("22f190", "7f1022"), ("22f190", "7f10"), ("00", "7f0001"), ("00", "7fc0"), ("3e00", "7f3e26"),
+    ("2c01f30012340101", "6c01f301"), ("2c030000", "6c030001"), ("2c0200001101 02".replace(" ", ""), "6c020001"),
+    ("2f12340201", "6f12340201"), ("1081", "5001"), ("1001", "5081"), ("190a", "5955"), ("3101ffff", "7101fffe"),
+]
+
+
 def requests(ctx, impl):
     """valid request objects from the C01 generators, grouped by (kind, sub-function)"""
     S = impl.S
@@ -276,7 +283,7 @@ def requests(ctx, impl):
         if akind in ("dtcByMask", "dtcPlain", "routine", "iocbiConv"):
             k = f"{akind}:{p[0]}"
         groups.setdefault(k, {}).setdefault(label, []).append((o, pdu))
-    per = ctx.pick(7, 40)
+    per = ctx.pick(12, 60)
     out = []
     for k in sorted(groups):
         labs = groups[k]
@@ -362,7 +369,7 @@ def run(ctx):
 
     # ---- 1. parse_pdu over requests x replies
     reqs = requests(ctx, impl)
-    pool_n = 1 if ctx.quick and not widen else 3
+    pool_n = 2 if ctx.quick and not widen else 4
     pool = []
     for r in rows:
         if r[1] == "NegativeResponse":
@@ -374,17 +381,20 @@ def run(ctx):
              ("unknown-sub-function", b"\x71\x04\x12\x34"), ("unknown-sub-function", b"\x71\x7f\x12\x34")]
 
     cases = []      # (kind, req obj, req pdu, label, reply)
-    seen_kind = set()
+    for q, b in CORPUS:   # minimised past disagreements run first
+        qb, bb = bytes.fromhex(q), bytes.fromhex(b)
+        cases.append(("corpus", S.UDSRequest.parse_dynamic(qb), qb, "corpus", bb))
+    seen_kind = {}
     for kind, o, pdu in reqs:
-        full = kind not in seen_kind
-        seen_kind.add(kind)
+        full = seen_kind.get(kind, 0) < (3 if widen else ctx.pick(2, 4))
+        seen_kind[kind] = seen_kind.get(kind, 0) + 1
         variants = [(kind, o, pdu)]
         if pdu[0] in SUBFN_SIDS and len(pdu) > 1 and kind != "raw":
             tog = bytes([pdu[0], pdu[1] ^ 0x80]) + pdu[2:]
             o2 = S.UDSRequest.parse_dynamic(tog)
             variants.append((kind + "+suppress-toggled", o2, tog))
         g = genuine_reply(rng, S, pdu, rows_by_rsid)
-        rs = reply_set(rng, S, pdu, g, pool, codes, full or widen, widen)
+        rs = reply_set(rng, S, pdu, g, pool, codes, full, widen)
         for j, (vk, vo, vp) in enumerate(variants):
             for lab, b in (rs if j == 0 else [x for x in rs if x[0] in ("genuine", "echo-byte+1", "flip-echo-or-field", "truncated", "reply-suppress-bit", "unknown-sub-function")]):
                 if b:
@@ -448,6 +458,29 @@ def run(ctx):
         ctx.disagree(k, f"parse_pdu({hx(sb)}, {type(o).__name__} {hx(pdu)}): {names[mcls]} ({clause(pdu, sb)}) -> {iout}, the property demands {mout}",
                      {"request": hx(pdu), "request_class": type(o).__name__, "reply": hx(sb), "found_as": hx(b), "op": "parse_pdu"},
                      impl=iout, model=m, spec_violated=sv, site="helpers.parse_pdu / " + (family(mout) if family(mout) not in ("any", "undecodable") else "parse_pdu") + ".matches")
+
+    # ---- 1b. the same exchanges through UDSClient.request_unsafe (what a probe gets): sampled
+    import asyncio
+
+    loop = asyncio.new_event_loop()
+    try:
+        idx = list(range(len(cases)))
+        rng.shuffle(idx)
+        take = [i for i in idx if cases[i][4][:1] != b"\x7f" or cases[i][4][2:3] != b"\x78"][: ctx.pick(1500, 12000)]
+        for i in take:
+            kind, o, pdu, lab, b = cases[i]
+            ctx.ev()
+            ctx.kind("client-request")
+            mout = mo[i].split(" ")[0]
+            cout = client_outcome(impl, loop, o, b)
+            if cout != mout:
+                ctx.disagree(f"client:{key_of(pdu, b, cout, mout, mo[i].split(' ')[1])}",
+                             f"UDSClient.request_unsafe({type(o).__name__} {hx(pdu)}) with the reply {hx(b)} ends in {cout}, the property demands {mout}",
+                             {"request": hx(pdu), "request_class": type(o).__name__, "reply": hx(b), "op": "parse_pdu"}, impl=cout, model=mo[i],
+                             spec_violated=cout.split(":")[0] != mout.split(":")[0], site="UDSClient.request_unsafe")
+        ctx.traces_validated += len(take)
+    finally:
+        loop.close()
 
     # ---- 2. matches() called directly (no raw fallback, the constructed request object)
     dcases = []
@@ -539,6 +572,42 @@ def run(ctx):
                          {"k": k, "qk": qk, "rdid": d, "qdid": d2, "op": "conv"}, impl=iv, model=m, spec_violated=True, site=conv_resp[k] + ".matches")
     ctx.traces_validated += len(ccases)
     ctx.exhaustive_parts.append("all 4 convenience response classes x all 5 InputOutputControlByIdentifier request classes x {same, different} identifier")
+
+
+class _OneReply:
+    """transport that answers every request with one scripted reply"""
+
+    def __init__(self, reply):
+        self.reply = reply
+        self.sent = []
+
+    async def request_unsafe(self, data, timeout=None, tags=None):
+        self.sent.append(bytes(data))
+        return self.reply
+
+    async def write(self, data, timeout=None, tags=None):
+        self.sent.append(bytes(data))
+        return len(data)
+
+    async def read(self, timeout=None, tags=None):
+        raise TimeoutError()
+
+
+def client_outcome(impl, loop, req, reply):
+    """UDSClient.request_unsafe(req) over a transport that answers `reply` -> outcome text as Impl.parse"""
+    from gallia.services.uds.core.client import UDSClient
+
+    E = impl.E
+    c = UDSClient(_OneReply(reply), timeout=1.0, max_retry=0)
+    try:
+        r = loop.run_until_complete(c.request_unsafe(req))
+    except E.RequestResponseMismatch:
+        return "mismatch"
+    except E.MalformedResponse:
+        return "malformed"
+    except Exception as e:  # noqa: BLE001
+        return f"exc:{type(e).__name__}"
+    return f"acc:{type(r).__name__}" + ("" if r.trigger_request is req else ":unbound")
 
 
 def replay(ctx, case):
